@@ -28,9 +28,12 @@ fn safe_join(root: &Path, rel: &str) -> Option<PathBuf> {
     Some(root.join(p))
 }
 
+/// Staging name for `dst`. It carries the server's process id: every SSH-spawned
+/// server stages outside the commit lock, so two servers putting the same path
+/// must not share (truncate, write into, rename away) one staging file.
 fn tmp_of(dst: &Path) -> PathBuf {
     let mut s = dst.as_os_str().to_owned();
-    s.push(".copia-tmp");
+    s.push(format!(".{}.copia-tmp", std::process::id()));
     PathBuf::from(s)
 }
 
